@@ -297,6 +297,9 @@ case("module constant display kept: the callee changes its parameter in place", 
 case("module constant display kept: the table is updated somewhere", {"constants": _KC, "m": _MC + "    def f(self, x):\n        return self._w(_T[constants.C], x)\n    def g(self):\n        _T[constants.A] = []\n"}, "m", "f", has=["_T[constants.C]"])
 case("module constant display kept: the value is returned (it escapes)", {"constants": _KC, "m": _MC + "    def f(self, x):\n        return _T[constants.C]\n"}, "m", "f", has=["_T[constants.C]"])
 
+case("a reversed display of plain names is the display written the other way round", {"m": "def f(g, a, b):\n    return g(1, *(a, b)[::-1])\n"}, "m", "f", has=["g(1, b, a)"])
+case("reversed display kept: an element is a call", {"m": "def f(g, a, b):\n    return g(1, *(a(), b)[::-1])\n"}, "m", "f", has=["[::-1]"])
+
 
 def main():
     bad = 0
